@@ -389,14 +389,24 @@ func runCapabilities(c *mc.Ctx, r *mc.Result) {
 	if c.Shard != 0 {
 		return
 	}
-	r.Bounds["capabilities"] = "all 32 combinations of {Flusher, Hijacker, Pusher, read/write deadlines, full duplex} on the underlying writer x the 6 capability calls; Context helpers String/Blob/Stream; Redirect for every code 0..999"
+	r.Bounds["capabilities"] = "all 32 combinations of {Flusher, Hijacker, Pusher, read/write deadlines, full duplex} on the underlying writer x the 6 capability calls x {nothing sent, header sent, header and body bytes sent}; Context helpers String/Blob/Stream; Redirect for every code 0..999"
 	nCap := len(capWriters())
 	for ci := 0; ci < nCap; ci++ {
-		for pi := 0; pi < 6; pi++ {
+		for pi := 0; pi < 18; pi++ {
 			// a fresh underlying writer and context for every probe: nothing has been sent before the call
+			// (probes 0..5), a header was sent (6..11), a header and body bytes were sent (12..17): delegation
+			// does not depend on what was sent before
 			cw := capWriters()[ci]
 			ctx := fox.NewTestContextOnly(cw.w, fx.Req("GET", "", "/"))
 			w := ctx.Writer()
+			stage := pi / 6
+			pi := pi % 6
+			if stage >= 1 {
+				w.WriteHeader(200)
+			}
+			if stage == 2 {
+				w.Write([]byte("body"))
+			}
 			type probe struct {
 				name string
 				bit  int
@@ -428,7 +438,7 @@ func runCapabilities(c *mc.Ctx, r *mc.Result) {
 				r.Violate("capabilities", "not-delegated", fmt.Sprintf("%s: the underlying writer's result was not returned (err=%v)", p.name, err), cw.mask)
 			}
 			// none of these calls (a flush excepted) forwards a header or a body byte
-			if p.name != "FlushError" && (w.Written() || w.Status() != 200 || w.Size() != 0) {
+			if stage == 0 && p.name != "FlushError" && (w.Written() || w.Status() != 200 || w.Size() != 0) {
 				r.Violate("capabilities", "wrong-written", fmt.Sprintf("after %s alone (underlying capability mask %05b, err=%v) Written()=%v Status()=%d Size()=%d although no header and no body byte were forwarded", p.name, cw.mask, err, w.Written(), w.Status(), w.Size()), cw.mask)
 			}
 		}
